@@ -63,3 +63,77 @@ Proof.
   destruct (caught e); [|eauto].
   apply auto_attempt_err; [exact Hid|]. cbn [f_bytes]. eauto.
 Qed.
+
+(* ---- text files through the front end ---- *)
+From OM Require Import Maths.AsciiCodecProofs.
+
+(* an empty file (what save writes for a 0-vector or a matrix with a zero dimension) is never offered to the text
+   reader (it does not start with a number): load fails whatever the kind and the detection order *)
+Lemma auto_attempt_empty order k ls : exists e, auto_attempt order k {| f_bytes := []; f_lines := ls; f_ascii := false |} = Err e.
+Proof. induction order as [|f t IH]; cbn [auto_attempt]; [eauto|]. destruct f; cbn; eauto. Qed.
+
+Theorem txt_empty_file_rejected order k ls :
+  exists e, load order 1 k {| f_bytes := []; f_lines := ls; f_ascii := false |} = Err e.
+Proof. unfold load, first_attempt. cbn. apply auto_attempt_empty. Qed.
+
+(* a file that starts with a number and not with the MATLAB magic is read by the text reader and by nothing else,
+   for the detection order of the library (matlab, ascii, tex, binary) *)
+Theorem txt_load_is_codec k fl :
+  f_ascii fl = true -> starts_with MAGIC_MAT (fst (read_tag (f_bytes fl))) = false ->
+  load [FMat; FTxt; FTex; FBin] 1 k fl = txt_decode k (f_lines fl).
+Proof.
+  intros Ha Hm. unfold load, first_attempt. cbn [fmt_of_suffix Z.eqb Pos.eqb].
+  destruct (read_tag (f_bytes fl)) as [tag st] eqn:E. cbn [fst] in Hm.
+  cbn [identify try_io]. rewrite Ha.
+  destruct (txt_decode k (f_lines fl)) as [o|e] eqn:D; [reflexivity|].
+  destruct (caught e); [|reflexivity].
+  cbn [auto_attempt]. rewrite E. cbn [identify try_io]. rewrite Hm, Ha. exact D.
+Qed.
+
+(* ---- conversions between formats: composition of the round trips ---- *)
+Section Convert.
+  Variable rnd6 : Z -> Z.
+  Variable dofz : Z -> Z.
+  Hypothesis rnd6_idem : forall w, rnd6 (rnd6 w) = rnd6 w.
+  Hypothesis rnd6_word : forall w, word w -> word (rnd6 w).
+
+  Lemma sorted_round es : sorted_keys es -> sorted_keys (map (fun e : Z * Z * Z => (fst e, rnd6 (snd e))) es).
+  Proof.
+    induction es as [|[k v] t IH]; [trivial|]. cbn [map sorted_keys fst snd]. intros [H1 H2]. split; [|apply IH; exact H2].
+    destruct t as [|[k' v'] t']; [trivial|exact H1].
+  Qed.
+
+  Lemma wf_round o : wf o -> wf (round_obj rnd6 o).
+  Proof.
+    destruct o as [vs|nl nc vs|n vs|nl nc es]; cbn [wf round_obj]; rewrite ?map_length.
+    - intros [H1 H2]. split; [exact H1|]. apply Forall_map. eapply Forall_impl; [|exact H2]. auto.
+    - intros (H1 & H2 & H3 & H4 & H5). repeat split; try assumption; try lia. apply Forall_map. eapply Forall_impl; [|exact H5]. auto.
+    - intros (H1 & H2 & H3 & H4). repeat split; try assumption. apply Forall_map. eapply Forall_impl; [|exact H4]. auto.
+    - intros (H1 & H2 & H3 & H4). repeat split; try assumption; try lia. { apply sorted_round; exact H3. }
+      apply Forall_map. eapply Forall_impl; [|exact H4]. cbn [fst snd]. intros e (A & B & C). auto.
+  Qed.
+
+  Lemma ambiguous_round o : ambiguous (round_obj rnd6 o) <-> ambiguous o.
+  Proof. destruct o; cbn [ambiguous round_obj]; rewrite ?map_length; tauto. Qed.
+
+  (* bin -> txt, txt -> bin, txt -> txt: the object arrives with its values rounded once to six digits *)
+  Theorem convert_preserves o : wf o -> wf_txt o -> ~ ambiguous o -> ~ txt_rejected_shape o -> ~ txt_empty_full o ->
+    (forall o1, decode_as (kind_of o) (encode o) = Ok o1 ->
+       txt_decode (kind_of o1) (view rnd6 dofz (txt_encode o1)) = Ok (round_obj rnd6 o)) /\
+    (forall o1, txt_decode (kind_of o) (view rnd6 dofz (txt_encode o)) = Ok o1 ->
+       decode_as (kind_of o1) (encode o1) = Ok (round_obj rnd6 o) /\
+       txt_decode (kind_of o1) (view rnd6 dofz (txt_encode o1)) = Ok (round_obj rnd6 o)).
+  Proof.
+    intros W Wt NA NR NE. split.
+    - intros o1 D. rewrite bin_roundtrip in D by assumption. inversion D; subst o1. apply txt_roundtrip; assumption.
+    - intros o1 D. rewrite (txt_roundtrip rnd6 dofz o Wt NR NE) in D. inversion D; subst o1. split.
+      + apply bin_roundtrip; [apply wf_round; exact W|rewrite ambiguous_round; exact NA].
+      + transitivity (Ok (round_obj rnd6 (round_obj rnd6 o))); [|rewrite (round_obj_idem rnd6 rnd6_idem o); reflexivity].
+        apply txt_roundtrip.
+        * destruct o; cbn [wf_txt round_obj] in *; rewrite ?map_length; try assumption.
+          destruct Wt as [S1 S2]. split; [apply sorted_round; exact S1|]. apply Forall_map. eapply Forall_impl; [|exact S2]. cbn [fst snd]. auto.
+        * destruct o; cbn [txt_rejected_shape round_obj] in *; rewrite ?map_length; try assumption.
+          intro H. apply NR. destruct es; [reflexivity|discriminate].
+        * destruct o; cbn [txt_empty_full round_obj] in *; assumption.
+  Qed.
+End Convert.
